@@ -216,6 +216,15 @@ func c11Env(h *c11Host) *env.Env {
 		return nil, errors.New("not found")
 	})
 	e.Define("match2", func(pat string) ([]string, map[string]int64, bool) { h.rec("match2", pat); return nil, nil, false })
+	e.Define("cbnil", func(f func(error) string) string { h.rec("cbnil"); return f(nil) + "|" + f(errors.New("E")) })
+	e.Define("cbany", func(f func(interface{}) interface{}) string {
+		h.rec("cbany")
+		return fmt.Sprintf("%v|%v|%v", f(nil), f(int64(1)), f("s"))
+	})
+	e.Define("cbmix", func(f func(int64, interface{}, []int64, error) interface{}) string {
+		h.rec("cbmix")
+		return fmt.Sprintf("%v|%v", f(1, nil, nil, nil), f(2, "x", []int64{3}, errors.New("E")))
+	})
 	e.Define("apply", func(f func(int64) int64, x int64) int64 { h.rec("apply", x); return f(x) + 1 })
 	e.Define("apply2", func(f func(int64, string) (int64, string)) string {
 		a, b := f(5, "s")
@@ -442,6 +451,11 @@ func c11Cases(rnd *Rand) []c11Case {
 		"several callback results, one of them nil")
 	add("applyany(func() { return [nil], false, pobj, \"\", [] })", "applyany("+p([]interface{}{nil})+", "+p(false)+", "+p(false)+", "+p("")+", "+p([]int64{})+") => "+p("[<nil>]|false|false||false|0"),
 		"several callback results with a pointer and an empty list")
+	add("cbnil(func(e) { if e == nil { return \"nil\" }; return \"err\" })", "cbnil() => "+p("nil|err"), "a callback called by Go with a nil interface argument receives nil")
+	add("cbany(func(v) { return v })", "cbany() => "+p("<nil>|1|s"), "an identity callback hands back what Go passed, nil included")
+	add("cbany(func(v) { return [v] })", "cbany() => "+p("[<nil>]|[1]|[s]"), "a callback can store the nil it was called with")
+	add("cbany(func(v) { return v == nil })", "cbany() => "+p("true|false|false"), "a callback compares its argument with nil")
+	add("cbmix(func(n, v, l, e) { return [n, v == nil, len(l), e == nil] })", "cbmix() => "+p("[1 true 0 true]|[2 false 1 false]"), "nil and non-nil arguments of several kinds arrive as Go passed them")
 	add("applyv(func(xs) { return len(xs) })", "applyv() => "+p(int64(3)), "callback of a variadic func type receives the variadic slice")
 	add("t = 0; each([1, 2, 3], func(x) { t += x }); t", "each("+p([]int64{1, 2, 3})+") => "+p(int64(6)), "callback invoked with the arguments Go passes")
 	add("apply(1, 5)", " => error", "a non-function where a func is wanted")
